@@ -4,6 +4,7 @@ import (
 	"fmt"
 	"math/rand/v2"
 	"net"
+	"reflect"
 
 	"github.com/miekg/dns"
 )
@@ -288,4 +289,54 @@ func viaWire(m *dns.Msg) (w *dns.Msg, ok bool) {
 	}
 
 	return w, true
+}
+
+// respare reshapes the slices of a message the way other components leave
+// them: spare capacity behind the elements, elements removed in place
+// (ecscache.rmHopToHopRRs, slices.DeleteFunc), empty but allocated.
+func respare(rng *rand.Rand, v reflect.Value, r *counters) {
+	switch v.Kind() {
+	case reflect.Pointer:
+		if !v.IsNil() {
+			respare(rng, v.Elem(), r)
+		}
+	case reflect.Interface:
+		if !v.IsNil() && v.Elem().Kind() == reflect.Pointer {
+			respare(rng, v.Elem(), r)
+		}
+	case reflect.Struct:
+		for i := 0; i < v.NumField(); i++ {
+			if f := v.Field(i); f.CanSet() || f.Kind() == reflect.Struct {
+				respare(rng, f, r)
+			}
+		}
+	case reflect.Slice:
+		if v.CanSet() {
+			n := v.Len()
+			switch k := rng.IntN(8); {
+			case k < 2 && (!v.IsNil() || rng.IntN(3) == 0):
+				nv := reflect.MakeSlice(v.Type(), n, n+1+rng.IntN(3)+8*rng.IntN(2))
+				reflect.Copy(nv, v)
+				v.Set(nv)
+				r.n["spare.capacity-behind"]++
+				if n == 0 {
+					r.n["spare.empty-with-capacity"]++
+				}
+			case k == 2 && n > 0:
+				e := 1 + rng.IntN(n)
+				for i := n - e; i < n; i++ {
+					v.Index(i).SetZero()
+				}
+				v.Set(v.Slice(0, n-e))
+				r.n["spare.removed-in-place"]++
+				if e == n {
+					r.n["spare.empty-with-capacity"]++
+				}
+			}
+		}
+		for i := 0; i < v.Len(); i++ {
+			respare(rng, v.Index(i), r)
+		}
+	default:
+	}
 }
